@@ -1,7 +1,8 @@
 // Package c16: "Authentication secrets never reach the debug log" (C16).
 // The real mechanisms are driven through smtp.Client.Auth (and, for the option plumbing, through
 // mail.Client.DialWithContext) against reference SASL servers (harness/saslx) whose honest behaviour is disturbed
-// at one step: 535, malformed challenge, unexpected extra challenge, disconnect; also wrong credentials.  Sessions
+// at one step: 535, malformed challenge, unexpected extra challenge, disconnect, a garbage line instead of a reply,
+// silence until the read times out (each right after EACH client line of the exchange); also wrong credentials.  Sessions
 // come in three hello modes: explicit Client.Hello before Auth, Auth as the first command on the connection (the
 // implicit EHLO inside Auth is then logged with the logger attached), and the same with the HELO fallback.
 //
@@ -64,6 +65,18 @@ type scenario struct {
 type reply struct {
 	code int
 	text string
+}
+
+// raw is non-empty when the server does something else than sending a well-formed reply (code -1: a garbage line,
+// code -2: silence until the read times out); the client's read fails
+func (r reply) raw() string {
+	switch r.code {
+	case -1:
+		return "@#\r\n"
+	case -2:
+		return saslx.StallMarker
+	}
+	return ""
 }
 
 // honest reference server for one exchange; reply to the k-th line (0 = the AUTH command)
@@ -200,6 +213,10 @@ func (s *scripted) onLine(line string) (reply, bool) {
 		case s.sc.mut == "drop" && step == s.sc.at:
 			s.dropped = true
 			return reply{}, false
+		case s.sc.mut == "garbage" && step == s.sc.at:
+			r = reply{-1, ""} // no reply code: textproto reports a protocol error, no reply was received
+		case s.sc.mut == "stall" && step == s.sc.at:
+			r = reply{-2, ""} // silence until the read deadline
 		case s.sc.mut == "extra" && step == s.sc.at && !s.extra:
 			s.extra = true
 			r = reply{334, saslx.B64([]byte("one more?"))}
@@ -240,6 +257,9 @@ func runSMTP(sc *scenario, lg log.Logger) (string, []string, []reply, bool, erro
 		r, ok := st.onLine(line)
 		if !ok {
 			return ""
+		}
+		if r.raw() != "" {
+			return r.raw()
 		}
 		return saslx.FormatReply(r.code, r.text)
 	}, sc.hello)
@@ -332,6 +352,10 @@ func replyArg(rs []reply) string {
 	}
 	parts := make([]string, len(rs))
 	for i, r := range rs {
+		if r.raw() != "" {
+			parts[i] = "bad"
+			continue
+		}
 		parts[i] = strconv.Itoa(r.code) + ":" + hx.Hex([]byte(r.text))
 	}
 	return strings.Join(parts, ",")
@@ -511,6 +535,9 @@ func runMailClient(r *hx.Run, c hx.Case) {
 		if !ok {
 			return ""
 		}
+		if rp.raw() != "" {
+			return rp.raw()
+		}
 		return saslx.FormatReply(rp.code, rp.text)
 	})
 	at := map[string]mail.SMTPAuthType{"plain": mail.SMTPAuthPlainNoEnc, "login": mail.SMTPAuthLoginNoEnc, "cram": mail.SMTPAuthCramMD5,
@@ -614,7 +641,13 @@ func Run(r *hx.Run, replay []hx.Case) {
 				}{"extra", k}, struct {
 					mut string
 					at  int
-				}{"drop", k})
+				}{"drop", k}, struct {
+					mut string
+					at  int
+				}{"garbage", k}, struct {
+					mut string
+					at  int
+				}{"stall", k})
 			}
 			for _, mu := range muts {
 				for _, lad := range []string{"0", "1"} {
